@@ -36,7 +36,7 @@ func debugGuards(args []string) {
 		ps := newPathSym(p, fn, f)
 		ps.WalkTo(b)
 		fmt.Printf("== return at %s:", p.InstrPos(ret))
-		for _, r := range ret.Results {
+		for _, r := range retVals(ret) {
 			fmt.Printf(" [%s]", ps.S(r))
 		}
 		fmt.Println()
